@@ -2,6 +2,13 @@
 
 package fw
 
+import (
+	"bytes"
+
+	"github.com/named-data/ndnd/fw/defn"
+	enc "github.com/named-data/ndnd/std/encoding"
+)
+
 // Contracts for the gcv verifier (/verif); compiled only with build tag `verif`.
 
 //@ func HashNameToFwThread
@@ -12,3 +19,30 @@ package fw
 //@   requires len(Threads) >= 1
 //@   ensures len(result) == len(Threads)
 //@   loop 1 invariant 1 <= i && len(threads) == len(Threads) && len(Threads) >= 1 && len(prefixHash) == len(name)+1
+
+// ---------------------------------------------------------------------------------------
+// C09: /localhost never crosses a non-local face
+// ---------------------------------------------------------------------------------------
+
+// specIsLocalhost: the name begins with the component "localhost".
+func specIsLocalhost(n enc.Name) bool {
+	return len(n) > 0 && bytes.Equal(n[0].Val, LOCALHOST)
+}
+
+// specPktName: the name of the Interest or Data carried by a packet.
+func specPktName(pkt *defn.Pkt) enc.Name {
+	if pkt.L3.Interest != nil {
+		return pkt.L3.Interest.NameV
+	}
+	if pkt.L3.Data != nil {
+		return pkt.L3.Data.NameV
+	}
+	return nil
+}
+
+// Every transmission goes through dispatch.Face.SendPacket. Its precondition is the scope rule, so every call site
+// in the forwarder, present or added later, carries the obligation "not (non-local face and /localhost name)".
+//
+//@ func (github.com/named-data/ndnd/fw/dispatch.Face).SendPacket
+//@   requires out.Pkt != nil && out.Pkt.L3 != nil
+//@   requires !(self.Scope() == defn.NonLocal && specIsLocalhost(specPktName(out.Pkt)))
